@@ -2,15 +2,15 @@ import glob, os, re
 from concurrent.futures import ThreadPoolExecutor
 import verif as V
 
-def compile_corpus(tier, seed):
+def compile_corpus(tier, seed, only=None):
     """rustc's verdict on the client-program corpus: escape attempts and unchecked calls outside `unsafe` must be rejected,
-    their twins must compile."""
+    their twins must compile.  `only`: file-name prefix (C05 runs its own programs with it)."""
     res = {"evaluations": 0, "distinct_nontrivial": 0, "violations": [], "broken": [], "samples": [], "notes": []}
     ok, out = V.harness_build("debug")
-    if not ok:
+    deps = os.path.join(V.TARGET, "debug", "deps")
+    if not ok and not (only and glob.glob(os.path.join(deps, "libhipstr-*.rlib"))):
         res["broken"].append({"kind": "harness-build", "excerpt": out[-2000:]})
         return res
-    deps = os.path.join(V.TARGET, "debug", "deps")
     rlibs = sorted(glob.glob(os.path.join(deps, "libhipstr-*.rlib")), key=os.path.getmtime)
     if not rlibs:
         res["broken"].append({"kind": "corpus", "excerpt": "libhipstr rlib not found"})
@@ -18,7 +18,7 @@ def compile_corpus(tier, seed):
     rlib = rlibs[-1]
     outdir = os.path.join(V.CACHE, "api_corpus")
     os.makedirs(outdir, exist_ok=True)
-    progs = sorted(glob.glob(os.path.join(V.HARNESS, "api_corpus", "*.rs")))
+    progs = sorted(glob.glob(os.path.join(V.HARNESS, "api_corpus", (only or "") + "*.rs")))
     def one(p):
         expect = re.search(r"// expect: (\w+)", open(p).read()).group(1)
         name = os.path.basename(p)[:-3]
@@ -33,14 +33,17 @@ def compile_corpus(tier, seed):
         res["evaluations"] += 1
         res["distinct_nontrivial"] += 1
         res["samples"].append("%s: expect %s -> %s %s" % (name, expect, "accepted" if rc == 0 else "rejected", ",".join(codes)))
-        if expect == "accept" and rc != 0:
+        if expect == "accept" and rc != 0 and name.startswith("c05_"):
+            res["violations"].append({"what": "api corpus %s" % name, "observed": "rustc rejects the program (%s): an Arc- or Unique-backed value is not Send / Sync here" % ",".join(codes), "expected": "accepted: Send and Sync independently of the borrow lifetime",
+                                      "program": open(os.path.join(V.HARNESS, "api_corpus", name + ".rs")).read(), "rustc": o[-800:]})
+        elif expect == "accept" and rc != 0:
             res["broken"].append({"kind": "corpus", "program": name, "excerpt": "twin program no longer compiles: " + o[-600:]})
         elif expect == "reject" and rc == 0:
             what = "unchecked entry point callable from safe code" if name.startswith("unsafe_") else "a trait whose implementors the unchecked code trusts can be named or implemented by client code" if name.startswith("sealed_") else ("non-atomic counter value sent to another thread" if "send" in name else "borrowed data escapes its borrow")
             res["violations"].append({"what": "api corpus %s" % name, "observed": "rustc accepts the program (%s)" % what, "expected": "compile error",
                                       "program": open(os.path.join(V.HARNESS, "api_corpus", name + ".rs")).read()})
         elif expect == "reject":
-            want = {"E0133"} if name.startswith("unsafe_") else {"E0603", "E0433", "E0432", "E0405", "E0277", "E0046"} if name.startswith("sealed_") else ({"E0277"} if "send" in name else BORROW)
+            want = {"E0277"} if name.startswith("c05_") else {"E0133"} if name.startswith("unsafe_") else {"E0603", "E0433", "E0432", "E0405", "E0277", "E0046"} if name.startswith("sealed_") else ({"E0277"} if "send" in name else BORROW)
             if not (set(codes) & want):
                 res["broken"].append({"kind": "corpus", "program": name, "excerpt": "rejected for an unexpected reason %s: %s" % (codes, o[-400:])})
     return res
